@@ -764,7 +764,7 @@ def m_is_eq(ex, c, args):
 # ------------------------------------------------------------------------------------------------
 # integer helpers
 
-@model("num::checked_sub")
+@model("num::checked_sub", "usize::checked_sub", "u32::checked_sub", "u64::checked_sub")
 def m_checked_sub(ex, c, args):
     a, b = args
     if ex.branch(ex.binop("Lt", a, b, "usize")):
@@ -772,7 +772,7 @@ def m_checked_sub(ex, c, args):
     return SOME(ex.binop("Sub", a, b, "usize"))
 
 
-@model("num::checked_add")
+@model("num::checked_add", "usize::checked_add", "u32::checked_add", "u64::checked_add")
 def m_checked_add(ex, c, args):
     a, b = args
     r, o = ex.binop("AddWithOverflow", a, b, "usize")
@@ -781,7 +781,7 @@ def m_checked_add(ex, c, args):
     return SOME(r)
 
 
-@model("num::saturating_sub")
+@model("num::saturating_sub", "usize::saturating_sub", "u32::saturating_sub", "u64::saturating_sub")
 def m_saturating_sub(ex, c, args):
     a, b = args
     if ex.branch(ex.binop("Lt", a, b, "usize")):
@@ -789,7 +789,7 @@ def m_saturating_sub(ex, c, args):
     return ex.binop("Sub", a, b, "usize")
 
 
-@model("num::saturating_add")
+@model("num::saturating_add", "usize::saturating_add", "u32::saturating_add", "u64::saturating_add")
 def m_saturating_add(ex, c, args):
     a, b = args
     r, o = ex.binop("AddWithOverflow", a, b, "usize")
@@ -798,17 +798,17 @@ def m_saturating_add(ex, c, args):
     return r
 
 
-@model("num::wrapping_sub")
+@model("num::wrapping_sub", "usize::wrapping_sub", "u32::wrapping_sub", "u64::wrapping_sub")
 def m_wrapping_sub(ex, c, args):
     return ex.binop("Sub", args[0], args[1], "usize")
 
 
-@model("num::wrapping_add")
+@model("num::wrapping_add", "usize::wrapping_add", "u32::wrapping_add", "u64::wrapping_add")
 def m_wrapping_add(ex, c, args):
     return ex.binop("Add", args[0], args[1], "usize")
 
 
-@model("num::abs_diff")
+@model("num::abs_diff", "usize::abs_diff", "u32::abs_diff", "u64::abs_diff")
 def m_abs_diff(ex, c, args):
     a, b = args
     if ex.branch(ex.binop("Lt", a, b, "usize")):
@@ -816,7 +816,7 @@ def m_abs_diff(ex, c, args):
     return ex.binop("Sub", a, b, "usize")
 
 
-@model("num::pow")
+@model("num::pow", "usize::pow", "u32::pow", "u64::pow")
 def m_pow(ex, c, args):
     a, b = args
     if isinstance(a, int) and isinstance(b, int):
